@@ -48,19 +48,19 @@ theorem unStep_sigFin (rec : Rec) (ev : Ev) (k : UnKind) (c : Op) (ph : Phase) (
   · exact unWrap_sigFin _ _ _
   · exact sigFin_none
 
-theorem waFinish_sigFin (a b : Op) (st : BinSt) (outs : List Out) : SigFin (waFinish a b st outs) := by
+theorem waFinish_sigFin (k : BinKind) (a b : Op) (st : BinSt) (outs : List Out) : SigFin (waFinish k a b st outs) := by
   intro o h
   unfold waFinish at h ⊢
   split <;> simp_all [Op.phase]
 
-theorem waStep_sigFin (rec : Rec) (ev : Ev) (a b : Op) (st : BinSt) : SigFin (waStep rec ev a b st) := by
+theorem waStep_sigFin (rec : Rec) (ev : Ev) (k : BinKind) (a b : Op) (st : BinSt) : SigFin (waStep rec ev k a b st) := by
   unfold waStep
   split
-  · exact waFinish_sigFin _ _ _ _
+  · exact waFinish_sigFin _ _ _ _ _
   · unfold waStop; split
     · exact sigFin_none
-    · exact waFinish_sigFin _ _ _ _
-  · exact waFinish_sigFin _ _ _ _
+    · exact waFinish_sigFin _ _ _ _ _
+  · exact waFinish_sigFin _ _ _ _ _
   · exact sigFin_none
 
 theorem swFinish_sigFin (a b : Op) (st : BinSt) (outs : List Out) : SigFin (swFinish a b st outs) := by
@@ -112,7 +112,8 @@ theorem binStep_sigFin (rec : Rec) (ev : Ev) (k : BinKind) (a b : Op) (st : BinS
     SigFin (binStep rec ev k a b st) := by
   unfold binStep
   split
-  · exact waStep_sigFin _ _ _ _ _
+  · exact waStep_sigFin _ _ _ _ _ _
+  · exact waStep_sigFin _ _ _ _ _ _
   · exact swStep_sigFin _ _ _ _ _
   · exact seqStep_sigFin _ _ _ _ _ _
 
